@@ -436,9 +436,18 @@ func buildAscending(tag string, t *Mast, md *symModel, n int) []uint64 {
 			// above the height the size allows, the top node is wide and every gap between its keys is a
 			// chain of key-less nodes down to a one-entry leaf: growing such a tree puts a new key-less
 			// node on top of every one of those (unchanged) chains
+			// (LALTEVERY = e: every e-th key instead of every second; the keys in between get ruler layers capped at LALTCAP)
+			every := verifBoundOr("LALTEVERY", 2)
 			l := 0
-			if i%2 == 1 {
+			if (i+1)%every == 0 {
 				l = hi
+			} else {
+				for j := (i + 1) % every; j%2 == 0; j /= 2 {
+					l++
+				}
+				if c := verifBoundOr("LALTCAP", 0); l > c {
+					l = c
+				}
 			}
 			verifAssume(verifLayer(k) == uint8(l))
 		}
